@@ -350,6 +350,49 @@ func runC11(t *testing.T, sc C11Scenario, keep bool) *core.Result {
 			}
 			res.Probe("proportionality_tested")
 		}
+		// the same for the glue of the NS target (one address per family, chosen by weight)
+		var gips []string
+		var gw []float64
+		gtotal := 0.0
+		for _, c := range sc.Glue {
+			if !c.V6 && (c.Loc == 0 || c.Loc == 1) && c.W > 0 {
+				gips = append(gips, net.ParseIP(c11IP(c)).String())
+				gw = append(gw, float64(c.W))
+				gtotal += float64(c.W)
+			}
+		}
+		if len(gips) >= 2 && len(res.Violations) == 0 {
+			const N = 20000
+			count := map[string]int{}
+			for i := 0; i < N; i++ {
+				r := ask(C11Query{Name: 1, Client: 0, MaxAns: 1})
+				if r == nil {
+					break
+				}
+				for _, rr := range r.Extra {
+					if a, ok := rr.(*dns.A); ok {
+						count[a.A.String()]++
+					}
+				}
+			}
+			chi, df := 0.0, -1
+			accE, accO := 0.0, 0.0
+			for i, ip := range gips {
+				accE += N * gw[i] / gtotal
+				accO += float64(count[ip])
+				if accE >= 5 || i == len(gips)-1 {
+					if accE > 0 {
+						chi += (accO - accE) * (accO - accE) / accE
+						df++
+					}
+					accE, accO = 0, 0
+				}
+			}
+			if df >= 1 && df < len(chi2Crit) && chi > chi2Crit[df] {
+				res.Add("not-proportional", "not-proportional|glue", fmt.Sprintf("%d NS queries over glue weights %v gave counts %v: chi-square %.1f with %d degrees of freedom (p < 1e-9)", N, gw, count, chi, df))
+			}
+			res.Probe("glue_proportionality_tested")
+		}
 	}
 	res.Nontrivial = len(sc.Cands) > 1
 	res.TraceHash += fmt.Sprintf("/%d/%d", sc.RandSeed, len(sc.Cands))
